@@ -1147,6 +1147,12 @@ func (w *Wallet) MintSwap(amount uint64, from, to string) (uint64, error) {
 
 	amountSwapped, err := w.swapProofs(proofsToSwap, &fromMint, &toMint)
 	if err != nil {
+		// the proofs were already removed from the wallet to do the swap. If it did not
+		// succeed (e.g payment failed or is still pending), keep them as pending so that
+		// they can be reclaimed if unspent or removed if they end up being spent.
+		if dberr := w.db.AddPendingProofs(proofsToSwap); dberr != nil {
+			return 0, fmt.Errorf("%v. Could not save proofs to pending: %v", err, dberr)
+		}
 		return 0, err
 	}
 
